@@ -351,7 +351,119 @@ def c07(ctx):
         selftest(ctx, "RelayTrace", "RelayTrace.cfg", segs[0], [("healthy-client-gets-502", victim_becomes_other), ("agent-dead-at-end", agent_dies)])
 
 
-CHECKS = {"C01": c01, "C04": c04, "C07": c07}
+def upload_report(ctx, fails, prefix):
+    for seg, idx, out, inv in fails:
+        ev = seg[min(max(idx, 0), len(seg) - 1)]
+        sig = "%s:%s" % (seg[0].get("sig"), inv or ev.get("ev"))
+        acks = [e for e in seg if e.get("ev") == "UpAck" and not e.get("eq", True)]
+        what = "%s %s: event #%d %s is not a behaviour of UploadObs%s" % (
+            prefix, seg[0].get("sig"), idx + 1, json.dumps({k: v for k, v in ev.items() if k not in ("pid", "seq", "src")}, sort_keys=True)[:200],
+            (" (invariant %s)" % inv) if inv else "")
+        if acks:
+            what += "; acknowledged attempt differs from the reference serialisation: " + str(acks[0].get("detail"))[:300]
+            sig = "%s:AckedCorrupt" % seg[0].get("sig")
+        report_failure(ctx, sig, what, seg=seg, tlc_out=out[-5000:])
+
+
+def c06(ctx):
+    import random
+    ctx.rule = ("cases = fault scripts enumerated by TLC (UploadGen: per attempt ack or fail kind{5xx-keep,5xx-close,reset,close} x position"
+                "{pre,head,body0,early,limit,past,end}) x response sizes around the 4096-byte replay buffer, run against the real forwarder "
+                "with a byte-level fault server; distinct = distinct (script shape, response size class)")
+    ctx.assumptions = ["acknowledged uploads are compared with the fault-free reference serialisation of the same handler script (bytes, else parsed content)",
+                       "which goroutine (stale or current transport writer) takes the next pipe piece is left to the scheduler"]
+    thorough = ctx.tier == "thorough"
+    tlc_must_hold(ctx, "Upload", "Upload_MC.cfg")
+    tlc_must_hold(ctx, "Upload", "Upload_MC2.cfg")
+    tlc_must_fail(ctx, "Upload", "Upload_Attack_StaleReader.cfg")
+    gen = tlc_generate(ctx, "UploadGen", "UploadGen.cfg", "upload_scripts.json")
+    alls = json.load(open(gen))["scripts"]
+    ctx.extra["scripts_enumerated_by_tlc"] = len(alls)
+    rnd = random.Random(ctx.seed)
+    short = [s for s in alls if len(s) <= 2]
+    longer = [s for s in alls if len(s) > 2]
+    sample = short + rnd.sample(longer, min(len(longer), 600 if thorough else 40))
+    cpath = os.path.join(ctx.scratch, "upload_cases.json")
+    json.dump({"scripts": sample}, open(cpath, "w"))
+    ctx.extra["scripts_replayed"] = len(sample)
+    go_build_harness(ctx)
+    events, _ = drive(ctx, "upload", cases=cpath, timeout=3000)
+    segs = split_segments(events)
+    fails = validate_segments(ctx, "UploadTrace", "UploadTrace.cfg", segs, batch=200)
+    upload_report(ctx, fails, "upload")
+    good = [s for s in segs if not any(s is f[0] for f in fails) and sum(1 for e in s if e.get("ev") == "Attempt") >= 2 and any(e.get("ev") == "UpAck" for e in s)]
+    if good:
+        def corrupt_ack(seg):
+            for e in seg:
+                if e.get("ev") == "UpAck":
+                    e["eq"] = False
+                    return True
+            return False
+
+        def fourth_attempt(seg):
+            for i, e in enumerate(seg):
+                if e.get("ev") == "CloseDone":
+                    seg.insert(i, {"ev": "Attempt", "n": 4, "id": "x"})
+                    return True
+            return False
+
+        def handler_blocked(seg):
+            for e in seg:
+                if e.get("ev") == "CloseDone":
+                    e["blocked"] = True
+                    return True
+            return False
+
+        def retry_after_overflow(seg):
+            for i, e in enumerate(seg):
+                if e.get("ev") == "Attempt" and e.get("n") == 2:
+                    seg.insert(i, {"ev": "BrsRead", "buf": 0, "src": 5000, "wh": 4096, "rh": 4096, "eof": False})
+                    return True
+            return False
+        selftest(ctx, "UploadTrace", "UploadTrace.cfg", good[0], [("acked-upload-corrupt", corrupt_ack), ("fourth-attempt", fourth_attempt),
+                                                                 ("handler-blocked", handler_blocked), ("retry-after-buffer-overflow", retry_after_overflow)])
+    elif not fails:
+        raise Inconclusive("no retried-and-acknowledged run was recorded")
+
+
+def c05(ctx):
+    ctx.rule = ("cases = chunkings (count 1..6, sizes 1 B .. 200 KB quick / 4 MB thorough, fixed edge chunkings around 4096 and 32768) produced by a "
+                "lock-step backend that emits chunk k+1 only after the proxy side has observed chunk k; run through the forwarder in process "
+                "and through the real agent binary (ReverseProxy, 100 ms flush); distinct = distinct (mode, size-class sequence)")
+    ctx.assumptions = ["'bounded time' = 10 s per chunk (normal latency is milliseconds to 100 ms flush interval)"]
+    tlc_must_hold(ctx, "Upload", "Upload_LockStep.cfg")
+    tlc_must_fail(ctx, "Upload", "Upload_Attack_BufferAll.cfg")
+    tlc_must_hold(ctx, "Upload", "Upload_MC.cfg")
+    go_build_repo(ctx, "./agent", "agent")
+    go_build_harness(ctx)
+    events, _ = drive(ctx, "stream", timeout=3000)
+    segs = split_segments(events)
+    fails = validate_segments(ctx, "UploadTrace", "UploadTrace.cfg", segs, batch=200)
+    for seg, idx, out, inv in fails:
+        ev = seg[min(max(idx, 0), len(seg) - 1)]
+        sig = "%s:%s" % (seg[0].get("sig"), ev.get("ev"))
+        what = "lock-step stream %s: event #%d %s - a flushed chunk was not relayed before the next one was demanded, or the stream did not complete" % (
+            seg[0].get("sig"), idx + 1, json.dumps({k: v for k, v in ev.items() if k not in ("pid", "seq", "src")}, sort_keys=True)[:200])
+        report_failure(ctx, sig, what, seg=seg, tlc_out=out[-4000:])
+    if not fails:
+        def stall(seg):
+            for i, e in enumerate(seg):
+                if e.get("ev") == "Observe":
+                    seg[i] = {"ev": "Stall", "k": e["k"]}
+                    return True
+            return False
+
+        def skip_observe(seg):
+            idx = [i for i, e in enumerate(seg) if e.get("ev") == "Observe"]
+            if len(idx) < 2:
+                return False
+            del seg[idx[0]]
+            return True
+        multi = [s for s in segs if sum(1 for e in s if e.get("ev") == "Observe") >= 2]
+        selftest(ctx, "UploadTrace", "UploadTrace.cfg", multi[0], [("stall", stall), ("chunk-not-observed-before-next", skip_observe)])
+
+
+CHECKS = {"C01": c01, "C04": c04, "C07": c07, "C05": c05, "C06": c06}
 
 if __name__ == "__main__":
     pid = sys.argv[1]
